@@ -102,6 +102,16 @@ func chanString(w []string, syn string) string {
 // ch renders a model channel as the real channel string, every level repeated k times ('#' stays single: it is only
 // valid as the last level).
 func (w *world) ch(wd []string, syn string) string {
+	if w.rename != nil {
+		r := make([]string, len(wd))
+		for i, x := range wd {
+			r[i] = x
+			if y, ok := w.rename[x]; ok {
+				r[i] = y
+			}
+		}
+		wd = r
+	}
 	if w.k <= 1 {
 		return chanString(wd, syn)
 	}
@@ -121,6 +131,15 @@ func (w *world) ch(wd []string, syn string) string {
 // words is the inverse of ch.
 func (w *world) words(ch string) []string {
 	ws := words(ch)
+	if w.rename != nil {
+		for i, x := range ws {
+			for from, to := range w.rename {
+				if x == to {
+					ws[i] = from
+				}
+			}
+		}
+	}
 	if w.k <= 1 {
 		return ws
 	}
@@ -190,6 +209,7 @@ type world struct {
 	b       *bk.Broker // the first broker (the only one unless the replay runs a cluster)
 	f       *fabric
 	nb      int
+	rename  map[string]string // model word -> the word used on the wire (names that look reserved: "presence", "query", ...)
 	broken  map[string]bool // connections the broker closed although no request ended them
 	k       int             // depth inflation: every channel word is repeated k times (0 or 1 = as is); semantics-preserving for literals and '+'
 	keys    map[string]string
@@ -553,6 +573,11 @@ func replayWith(nb int, surveyed, standalone bool, mode string, licVer int, stor
 	defer func() { f.close() }()
 	b := f.bs["b1"]
 	w := &world{b: b, f: f, nb: nb, clients: map[string]*bk.Client{}, byID: map[string]string{}, names: []string{"c1", "c2", "c3"}}
+	if nb == 1 && len(label)%5 == 2 {
+		// the same behaviour with channel levels that carry the names of the broker's own namespaces: a level is a
+		// level, whatever it is called
+		w.rename = map[string]string{"a": "presence", "b": "query", "x": "share", "y": "emitter"}
+	}
 	if w.keys, err = mintKeys(b); err != nil {
 		return nil, err
 	}
@@ -783,7 +808,11 @@ func (w *world) storedMessages() (out map[string][][]any) {
 		b := w.f.bs[bn]
 		seen := map[string]bool{}
 		list := [][]any{}
-		for _, first := range []string{"a", "b", "x", "y"} { // the channels of the model (hostile requests use first levels of their own)
+		firsts := []string{"a", "b", "x", "y"}
+		if w.rename != nil {
+			firsts = []string{"presence", "query", "share", "emitter"}
+		}
+		for _, first := range firsts { // the channels of the model (hostile requests use first levels of their own)
 			ssid := message.NewSsid(b.Lic.Contract(), []uint32{hash.OfString(first)})
 			fr, err := b.Svc.VerifStorage().Query(ssid, time.Unix(0, 0), time.Unix(0, 0), nil, 10000)
 			if err != nil {
